@@ -374,6 +374,29 @@ def run(chk):
                     elif r1[0] == 'ok':
                         chk.nontrivial.add('conv:' + c1)
     chk.distribution['function conversion pairs compared'] = nconv
+    # the same rules for inline functions with a typed parameter: function($p as T) { $p }(node) = (untyped string value) = T(s)
+    for tname, svs in VALS.items():
+        if tname == 'xs:numeric':
+            continue
+        for node, sv in NODES:
+            for occ in ('', '?'):
+                fexpr = f'function($p as {tname}{occ}) {{ $p }}'
+                c1, c2 = f'{fexpr}({node})', f"{fexpr}(xs:untypedAtomic('{sv}'))"
+                chk.evaluations += 1
+                chk.count('conversion-rules:inline-function')
+                r1, r2 = run5(c1), run5(c2)
+                if r1[0] != 'exc' and r2[0] != 'exc' and r1 != r2:
+                    chk.violation('impl-vs-spec', {'call': c1, 'equivalent call': c2, 'rule': 'atomization (inline function)'}, {'result': repr(r1)[:200], 'result of the equivalent call': repr(r2)[:200]})
+                elif r1[0] == 'ok':
+                    chk.nontrivial.add('conv-inline:' + c1)
+        for sv in svs:
+            fexpr = f'function($p as {tname}) {{ $p }}'
+            c1, c2 = f"{fexpr}(xs:untypedAtomic('{sv}'))", f"{fexpr}({tname}('{sv}'))"
+            chk.evaluations += 1
+            chk.count('conversion-rules:inline-function')
+            r1, r2 = run5(c1), run5(c2)
+            if r1[0] != 'exc' and r2[0] != 'exc' and r1 != r2:
+                chk.violation('impl-vs-spec', {'call': c1, 'equivalent call': c2, 'rule': 'untyped -> ' + tname + ' (inline function)'}, {'result': repr(r1)[:200], 'result of the equivalent call': repr(r2)[:200]})
     chk.rule = ('every constructible atomic type against every atomic type; seeded sequences of 0-3 typed items x occurrence x target type through '
                 'instance of (with spacing variants), treat as and match_sequence_type; all occurrence x occurrence x 10 x 10 type pairs through '
                 'is_sequence_type_restriction; a table of kind / map / array / function tests; ~170 built-in function calls against their declared '
